@@ -1,32 +1,8 @@
-(** C09 — further exhaustive facts about the banded kernel (pairs over {a,c} up to length 4): the answer does not depend on the
-    content of a reused scratch buffer (two poisoned buffers: every word 2^64-1, every word the best possible
-    in-band cell) and is symmetric in its two arguments; for sequences of different lengths the symmetry holds for
-    all inputs (the kernel swaps them). *)
+(** C09 — the kernel swaps sequences of different lengths (all inputs, both modes, any buffer). *)
 From Coq Require Import NArith ZArith List Bool Lia.
 Import ListNotations.
 From OBI.C09 Require Import Model.
 Open Scope Z_scope.
-
-Definition poison1 : list N := repeat 18446744073709551615%N 130.
-Definition poison2 : list N := repeat (enc 65535 0 false) 130.
-
-Definition zz_eqb (x y : Z * Z) : bool := (fst x =? fst y) && (snd x =? snd y).
-
-Definition band_extra_ok (a b : list N) (m : Z) : bool :=
-  let r := fast_lcs_score a b m [] in
-  zz_eqb (fast_lcs_score a b m poison1) r && zz_eqb (fast_lcs_score a b m poison2) r
-  && zz_eqb (fast_lcs_score b a m []) r.
-
-Definition band_extra_all (alpha : list N) (n : nat) : bool :=
-  forallb (fun a => forallb (fun b => forallb (band_extra_ok a b) (zrange (-1) (Z.of_nat n + 2))) (seqs_upto alpha n))
-    (seqs_upto alpha n).
-
-Lemma band_extra_binary_4 : band_extra_all binary 4 = true.
-Proof. vm_cast_no_check (eq_refl true). Qed.
-
-(** the buffers are long enough to be used, not replaced by zeros: 2*width <= 74 for lengths <= 4 *)
-Lemma poison_len : length poison1 = 130%nat /\ length poison2 = 130%nat.
-Proof. split; apply repeat_length. Qed.
 
 Lemma lcs_band_swap : forall a b m egf init, length a <> length b ->
   lcs_band a b m egf init = lcs_band b a m egf init.
@@ -35,34 +11,3 @@ Proof.
   destruct (Z.ltb_spec (Z.of_nat (length a)) (Z.of_nat (length b))) as [L | L];
     destruct (Z.ltb_spec (Z.of_nat (length b)) (Z.of_nat (length a))) as [L' | L']; try reflexivity; exfalso; lia.
 Qed.
-
-From OBI.C09 Require Import Band.
-
-Lemma zz_eqb_eq : forall x y, zz_eqb x y = true -> x = y.
-Proof.
-  intros [a b] [c d] H. unfold zz_eqb in H. cbn [fst snd] in H. apply andb_true_iff in H.
-  destruct H as [H1 H2]. apply Z.eqb_eq in H1, H2. subst. reflexivity.
-Qed.
-
-Lemma band_extra_sound : forall alpha n, band_extra_all alpha n = true ->
-  forall a b m, over alpha a -> over alpha b -> (length a <= n)%nat -> (length b <= n)%nat ->
-  -1 <= m <= Z.of_nat n + 1 ->
-  fast_lcs_score a b m poison1 = fast_lcs_score a b m [] /\
-  fast_lcs_score a b m poison2 = fast_lcs_score a b m [] /\
-  fast_lcs_score b a m [] = fast_lcs_score a b m [].
-Proof.
-  intros alpha n H a b m Ha Hb La Lb Hm. unfold band_extra_all in H.
-  rewrite forallb_forall in H. specialize (H a (seqs_upto_complete alpha n a Ha La)).
-  rewrite forallb_forall in H. specialize (H b (seqs_upto_complete alpha n b Hb Lb)).
-  rewrite forallb_forall in H. specialize (H m (zrange_complete (-1) (Z.of_nat n + 2) m ltac:(lia))).
-  unfold band_extra_ok in H. cbv zeta in H. apply andb_true_iff in H. destruct H as [H H3].
-  apply andb_true_iff in H. destruct H as [H1 H2].
-  split; [apply zz_eqb_eq; exact H1 |]. split; apply zz_eqb_eq; assumption.
-Qed.
-
-Lemma band_extra_binary_upto_4 : forall a b m, over binary a -> over binary b ->
-  (length a <= 4)%nat -> (length b <= 4)%nat -> -1 <= m <= 5 ->
-  fast_lcs_score a b m poison1 = fast_lcs_score a b m [] /\
-  fast_lcs_score a b m poison2 = fast_lcs_score a b m [] /\
-  fast_lcs_score b a m [] = fast_lcs_score a b m [].
-Proof. intros a b m Ha Hb La Lb Hm. apply (band_extra_sound binary 4 band_extra_binary_4); assumption. Qed.
